@@ -176,8 +176,8 @@ class Contracts:
                 if t[0] == 'attr' and t[2] in sub:
                     return T.C(sub[t[2]])
                 return None
-            c0 = T.norm(T.replace(cfull, rep) if sub else cfull)
-            r0 = T.norm(T.replace(rfull, rep) if sub else rfull)
+            c0 = T.dtree(T.norm(T.replace(cfull, rep) if sub else cfull))
+            r0 = T.dtree(T.norm(T.replace(rfull, rep) if sub else rfull))
             if not bexprs:
                 out.append((name, T.canon(T.debruijn(c0)), T.canon(T.debruijn(r0))))
                 continue
